@@ -4,7 +4,7 @@
    verification and X.509 signature checks are oracles: decoded, lib_verify, sigfrom, selfsig).
    ContentOK is the property's list of signed-attribute rules, Conformant "meets the envelope
    specification" (both defined at the top of the C07 sections of Proofs/Header.v). *)
-From NCG Require Import Model.Header Proofs.Header.
+From NCG Require Import Model.Header Proofs.Header Proofs.SpecAcceptsModel.
 
 Theorem C07_sound : forall sigfrom selfsig decoded h c,
   (h_fmt h = 0 \/ h_fmt h = 1)%Z ->
@@ -47,3 +47,10 @@ Theorem C07_checker_complete : forall sf ss h c, (h_fmt h = 0 \/ h_fmt h = 1)%Z 
   ContentOK sf ss h c -> content_ok_b sf ss h c = true.
 Proof. exact content_ok_b_complete. Qed.
 Print Assumptions C07_checker_complete.
+
+(* the content test of the runs (Run/C07.v clauses 1-3, Run/C01.v clause 1) accepts whatever the model returns *)
+Theorem C07_spec_side_accepts_model : forall sf ss decoded lv h c, (h_fmt h = 0 \/ h_fmt h = 1)%Z ->
+  verify_of sf ss decoded lv h = Some c ->
+  content_of sf ss decoded h = Some c /\ lv = true /\ content_ok_b sf ss h c = true /\ decoded = true.
+Proof. exact model_verify_passes_spec. Qed.
+Print Assumptions C07_spec_side_accepts_model.
